@@ -96,6 +96,38 @@ NumOf(c) == IF c = <<>> THEN 0 ELSE 10 * NumOf(SubSeq(c, 1, Len(c) - 1)) + (c[Le
 CellsEmpty(ln) == \A k \in 1..Len(ln.cells_cp) : ln.cells_cp[k] = <<>>
 IsIgnoredRow(ln) == Len(ln.cells_cp) >= 1 /\ ln.cells_cp[1] = Ignored
 Headings == <<"fastest", "slowest", "median", "mean", "samples", "iters">>
+HeadingsCp == << <<102, 97, 115, 116, 101, 115, 116>>, <<115, 108, 111, 119, 101, 115, 116>>,
+                 <<109, 101, 100, 105, 97, 110>>, <<109, 101, 97, 110>>,
+                 <<115, 97, 109, 112, 108, 101, 115>>, <<105, 116, 101, 114, 115>> >>
+
+(* The documented formatting of durations and throughputs (C18's reference) *)
+(* decides what a cell must read for the statistic of its column.           *)
+F == INSTANCE Fmt
+CounterUnit == <<"bytes/s", "chars/s", "cycles/s", "items/s">>
+
+(* Continuation rows that follow line i.                                    *)
+RECURSIVE ContRowsFrom(_, _)
+ContRowsFrom(r, i) ==
+  IF i > Len(r.lines) \/ r.lines[i].t # "cont" THEN <<>>
+  ELSE <<r.lines[i]>> \o ContRowsFrom(r, i + 1)
+
+NoAllocFigures(st) ==
+  /\ \A k \in 1..4 : st.max_alloc_count[k] = 0 /\ st.max_alloc_size[k] = 0
+  /\ \A o \in 1..4 : \A k \in 1..4 : st.tally_count[o][k] = 0 /\ st.tally_size[o][k] = 0
+
+(* One throughput row per counter kind in force, in the order bytes, chars, *)
+(* cycles, items; each cell is the count of its column over the time of its *)
+(* column.                                                                  *)
+CounterRowsExact(rows, st) ==
+  LET kinds == SelectSeq(<<1, 2, 3, 4>>, LAMBDA q : st.counts[q] # <<>>) IN
+  /\ Len(rows) = Len(kinds)
+  /\ \A j \in 1..Len(kinds) :
+        /\ Len(rows[j].cells_cp) = 6
+        /\ rows[j].cells_cp[5] = <<>> /\ rows[j].cells_cp[6] = <<>>
+        /\ \A k \in 1..4 :
+              st.time[k] < 0 \/
+              F!AcceptsThroughput(rows[j].cells_cp[k], F!FromInt(st.counts[kinds[j]][k]),
+                                  F!FromInt(st.time[k]), CounterUnit[kinds[j]], FALSE)
 
 (***************************************************************************)
 (* The check of one run.                                                   *)
@@ -241,6 +273,9 @@ CheckRun(r) ==
                  (IsIgnoredRow(r.lines[i]) # (kindOf(keyOf(i)) = "ignored")), "C15:ignored_mark")
     \cup Flag(C.action = "bench" /\ \E i \in RowIdx(r) : keyOf(i) \in expPaths /\ kindOf(keyOf(i)) = "parent" /\
                  DepthOf(r.lines[i]) > 0 /\ ~CellsEmpty(r.lines[i]), "C20:cells_on_a_group_row")
+    \* the column headings, in the documented order, on every top-level row
+    \cup Flag(C.action = "bench" /\ \E i \in RowIdx(r) : keyOf(i) \in expPaths /\ kindOf(keyOf(i)) = "parent" /\
+                 DepthOf(r.lines[i]) = 0 /\ r.lines[i].cells_cp # HeadingsCp, "C20:column_headings")
     \* ---------------------------------------------------------------- C16
     \cup Flag(\E i \in RowIdx(r) : HasLaterSibling(r, i) /\ keyOf(i) \in expPaths /\
           LET n == NextUpTo(r, i, DepthOf(r.lines[i]))
@@ -322,6 +357,14 @@ CheckRun(r) ==
              \cup (IF C.action # "bench" \/ ~inv.has_stats THEN {} ELSE
                    LET ln == r.lines[runRows[k]] IN
                    Flag(Len(ln.cells_cp) # 6, "C20:statistics_row_shape")
+                   \* each time cell is the documented text of the statistic of its column
+                   \cup Flag(Len(ln.cells_cp) = 6 /\ \E c \in 1..4 : inv.stats.time[c] >= 0 /\
+                                ln.cells_cp[c] # F!FormatDur(F!FromInt(inv.stats.time[c])),
+                             "C20:time_cell_is_not_the_statistic_of_its_column")
+                   \* throughput rows: one per counter kind, computed column by column
+                   \cup Flag(NoAllocFigures(inv.stats) /\
+                             ~CounterRowsExact(ContRowsFrom(r, runRows[k] + 1), inv.stats),
+                             "C20:throughput_rows_are_not_those_of_the_benchmark_above")
                    \cup Flag(Len(ln.cells_cp) = 6 /\ (~IsNumberCp(ln.cells_cp[5]) \/ ~IsNumberCp(ln.cells_cp[6])),
                              "C20:samples_or_iters_cell_not_a_number")
                    \cup Flag(Len(ln.cells_cp) = 6 /\ IsNumberCp(ln.cells_cp[5]) /\ IsNumberCp(ln.cells_cp[6]) /\
